@@ -219,9 +219,12 @@ func (t *Table) lookupUnlocked(ip net.IP) *Route {
 			continue
 		}
 
-		// Calculate prefix length
+		// Calculate prefix length. Two buckets can hold the same network under
+		// different keys (e.g. a prefix advertised with host bits set), so an
+		// equal prefix length is decided by the lower metric.
 		ones, _ := first.Network.Mask.Size()
-		if ones > bestPrefixLen {
+		if ones > bestPrefixLen ||
+			(ones == bestPrefixLen && first.Metric < bestRoute.Metric) {
 			bestPrefixLen = ones
 			bestRoute = first // First is best due to sorting by metric
 		}
